@@ -386,9 +386,6 @@ Fixpoint relay_states (cap : nat) (pats : list pat) (chunked : bool) (s : rstate
        | d :: r => relay_states cap pats chunked
                      (relay_run cap pats chunked s [Arrive d; Read (length d - 1)]) r
        end.
-(* the writes after the last read (modelled Response.Write): last chunk, trailer section *)
-Definition go_tail (meth : str) (r : resp) : list str :=
-  if g_te (go_state meth r) then [b "0" ++ crlf] ++ header_writes [] (final_trailer r) ++ [crlf] else [].
 Fixpoint list_nat_eqb (x y : list nat) : bool :=
   match x, y with
   | [], [] => true
